@@ -33,6 +33,7 @@ var (
 	flagNoMut    = flag.Bool("nomutants", false, "thorough tier without the mutant self-test")
 	flagList     = flag.Bool("list", false, "list obligations")
 	flagDump     = flag.String("dumpfn", "", "debug: pkg:recv:name — print the SSA of a function with the guards of each block")
+	flagNBuiltin = flag.Bool("nbuiltin", false, "internal: print the number of built-in mutants of the property")
 	flagMutant   = flag.Int("mutant", -1, "internal: run with mutant #n of the property applied and report whether the rules fire")
 )
 
@@ -98,6 +99,10 @@ func main() {
 	if p == nil {
 		fmt.Printf("UNDECIDED property=%s reason=not-registered\n", *flagProp)
 		os.Exit(exitUndecided)
+	}
+	if *flagNBuiltin {
+		fmt.Println(len(p.Mutants))
+		os.Exit(0)
 	}
 	loadExtraMutants(p)
 	if *flagMutant >= 0 {
